@@ -4,6 +4,7 @@ import pathlib
 
 from vf import core
 from vf.translate import core as T
+from vf import rmdirs_family
 from vf.harness import histories, itemrun as ir, itemworld as iw
 from vf.harness import world as w
 
@@ -46,6 +47,12 @@ def proofs(ctx):
         ctx.obligations.append("order-pins")
     except T.Untranslatable as e:
         ctx.broke("translator", "effect order of pull / delete / completion", str(e))
+    ctx.attempted.append("remove_filedir-pin")
+    try:
+        rmdirs_family.pin()
+        ctx.obligations.append("remove_filedir-pin")
+    except T.Untranslatable as e:
+        ctx.broke("translator", "remove_filedir", str(e))
     core.check_property_file(ctx, "C09.v")
 
 
@@ -418,6 +425,7 @@ def explore(ctx):
     explore_imports(ctx, base)
     explore_scan_completion(ctx, base / "scandone")
     deletion_corpus(ctx, base)
+    rmdirs_family.explore(ctx, base / "rmdirs", 120 if q else 3000)
     explore_histories(ctx, base, 15 if q else 400)
 
 
